@@ -34,9 +34,10 @@ class Undecidable(Exception):
 # ---------------------------------------------------------------- values
 
 class Val:
-    __slots__ = ("k", "t", "ty", "extra")
+    __slots__ = ("k", "t", "ty", "extra", "nan")
 
-    def __init__(self, k, t=None, ty=None, extra=None):
+    def __init__(self, k, t=None, ty=None, extra=None, nan=None):
+        self.nan = nan      # z3 Bool "is NaN" (only in nan_aware contracts); None = never NaN
         self.k = k          # int | float | bool | arr | ptr | tuple | obj | func | none | slice
         self.t = t          # z3 term (int/float/bool), ArrObj (arr), (ArrObj, offset) (ptr), list (tuple)
         self.ty = ty        # static T (for ints: drives overflow obligations)
@@ -164,7 +165,9 @@ class Contract:
 
     def __init__(self, func, requires=(), ensures=(), loops=None, float_mode="R", bind=None,
                  ghost=None, lemmas=(), modifies=None, defs=(), name=None, checks=("bounds", "overflow", "narrow", "divzero"),
-                 assume_types=True, note=""):
+                 assume_types=True, note="", nan_aware=False, asserts=None):
+        self.nan_aware = nan_aware
+        self.asserts = asserts or {}     # {"<statement source>[#n]": [spec, ...]} checked before it runs
         self.func = func
         self.requires, self.ensures = list(requires), list(ensures)
         self.loops = loops or {}
@@ -314,6 +317,9 @@ class Exec:
                 cont = z3.K(I, cont)
                 s = z3.ArraySort(I, s)
         self.heap[a.id] = cont
+        a.init_known = init is not None
+        if self.c.nan_aware and elem is not None and elem.kind == "float":
+            self.nan_heap(a)
         return a
 
     def select(self, a, idx):
@@ -334,13 +340,49 @@ class Exec:
         # so inside a branch we just overwrite.
         return new
 
-    def elem_val(self, a, term):
+    def elem_val(self, a, term, idx=None):
         e = a.elem
         if e is None or e.kind == "int" or e.kind == "bool":
             return Val("int", term, e if e is not None else PYINT)
         if e.kind == "float":
-            return Val("float", term, e)
+            nan = None
+            if self.c.nan_aware and idx is not None:
+                nan = self.nan_select(a, idx)
+            return Val("float", term, e, nan=nan)
         return Val("obj", term, e)
+
+    def nanof(self, v):
+        return v.nan if (v.k == "float" and v.nan is not None) else z3.BoolVal(False)
+
+    def nan_heap(self, a):
+        key = (a.id, "nan")
+        if key not in self.heap:
+            srt = B
+            for _ in range(a.ndim):
+                srt = z3.ArraySort(I, srt)
+            if a.fresh and getattr(a, "init_known", False):
+                c = z3.BoolVal(False)
+                for _ in range(a.ndim):
+                    c = z3.K(I, c)
+                self.heap[key] = c
+            else:
+                self.heap[key] = z3.Const(f"{a.name}__nan0", srt)
+            if key not in self.entry_heap and not a.fresh:
+                self.entry_heap[key] = self.heap[key]
+        return self.heap[key]
+
+    def nan_select(self, a, idx):
+        t = self.nan_heap(a)
+        for i in idx:
+            t = z3.Select(t, i)
+        return t
+
+    def nan_store(self, a, idx, flag):
+        def rec(t, ii):
+            if len(ii) == 1:
+                return z3.Store(t, ii[0], flag)
+            return z3.Store(t, ii[0], rec(z3.Select(t, ii[0]), ii[1:]))
+        self.heap[(a.id, "nan")] = rec(self.nan_heap(a), idx)
 
     def check_index(self, a, idx, node, what):
         for d, i in enumerate(idx):
@@ -366,9 +408,12 @@ class Exec:
                 return Val("float", z3.If(c, self.to_float(a), self.to_float(b)), PYFLOAT)
             return Val("obj", None, OBJ)
         if a.k in ("int", "float", "bool"):
-            if a.t is b.t or z3.eq(a.t, b.t):
+            if (a.t is b.t or z3.eq(a.t, b.t)) and a.nan is None and b.nan is None:
                 return a
-            return Val(a.k, z3.If(c, a.t, b.t), a.ty, a.extra if a.extra == b.extra else None)
+            nan = None
+            if a.k == "float" and (a.nan is not None or b.nan is not None):
+                nan = z3.If(c, self.nanof(a), self.nanof(b))
+            return Val(a.k, z3.If(c, a.t, b.t), a.ty, a.extra if a.extra == b.extra else None, nan=nan)
         if a.k == "tuple" and len(a.t) == len(b.t):
             return Val("tuple", [self.merge_vals(c, x, y) for x, y in zip(a.t, b.t)])
         if a.k == "ptr":
@@ -468,7 +513,8 @@ class Exec:
                 self.facts.append(z3.Or(t == 0, t == 1))
             return Val("int", t, ty)
         if ty.kind == "float":
-            return Val("float", self.fresh(name, self.fm.F), ty)
+            return Val("float", self.fresh(name, self.fm.F), ty,
+                       nan=self.fresh(name + "_nan", B) if self.c.nan_aware else None)
         if ty.kind == "bool":
             return Val("bool", self.fresh(name, B), ty)
         return Val("obj", None, ty)
@@ -495,7 +541,7 @@ class Exec:
         if isinstance(n.op, ast.USub):
             if v.k == "float":
                 return Val("float", -v.t if self.fm.mode == "R" else self.fm.fn["neg"](v.t), v.ty,
-                           -v.extra if v.extra is not None else None)
+                           -v.extra if v.extra is not None else None, nan=v.nan)
             t = self.to_int(v)
             return Val("int", -t, v.ty, -v.extra if v.extra is not None else None)
         if isinstance(n.op, ast.UAdd):
@@ -533,8 +579,12 @@ class Exec:
         if a.k == "float" or b.k == "float":
             x, y = self.to_float(a), self.to_float(b)
             if self.fm.mode == "R":
-                return {ast.Lt: x < y, ast.LtE: x <= y, ast.Gt: x > y, ast.GtE: x >= y,
-                        ast.Eq: x == y, ast.NotEq: x != y}[type(op)]
+                r = {ast.Lt: x < y, ast.LtE: x <= y, ast.Gt: x > y, ast.GtE: x >= y,
+                     ast.Eq: x == y, ast.NotEq: x != y}[type(op)]
+                if self.c.nan_aware and (a.nan is not None or b.nan is not None):
+                    anynan = z3.Or(self.nanof(a), self.nanof(b))
+                    r = z3.Or(anynan, r) if isinstance(op, ast.NotEq) else z3.And(z3.Not(anynan), r)
+                return r
             lt, le = self.fm.fn["lt"], self.fm.fn["le"]
             return {ast.Lt: lt(x, y), ast.LtE: le(x, y), ast.Gt: lt(y, x), ast.GtE: le(y, x),
                     ast.Eq: x == y, ast.NotEq: x != y}[type(op)]
@@ -631,7 +681,10 @@ class Exec:
                     r = self.fm.fn["pow"](x, y)
         else:
             raise Undecidable(f"float operator {type(op).__name__}")
-        return Val("float", r, ty)
+        nan = None
+        if self.c.nan_aware and (a.nan is not None or b.nan is not None):
+            nan = z3.Or(self.nanof(a), self.nanof(b))
+        return Val("float", r, ty, nan=nan)
 
     def sqrt(self, x):
         if self.fm.mode == "UF":
@@ -687,7 +740,7 @@ class Exec:
                 for e in items[1].elts:
                     j = self.to_int(self.ev(e))
                     self.check_index(a, [i0, j], n, src_of(n))
-                    out.append(self.elem_val(a, self.select(a, [i0, j])))
+                    out.append(self.elem_val(a, self.select(a, [i0, j]), [i0, j]))
                 return Val("tuple", out)
             if any(isinstance(i, ast.Slice) for i in items):
                 lead = [i for i in items if not isinstance(i, ast.Slice)]
@@ -707,7 +760,7 @@ class Exec:
                 raise Undecidable(f"index arity {src_of(n)}")
             idx = [self.to_int(self.ev(i)) for i in items]
             self.check_index(a, idx, n, src_of(n))
-            return self.elem_val(a, self.select(a, idx))
+            return self.elem_val(a, self.select(a, idx), idx)
         if base.k == "ptr":
             a, off = base.t
             if len(items) != 1:
@@ -715,12 +768,12 @@ class Exec:
             i = off + self.to_int(self.ev(items[0]))
             self.oblige("bounds", f"{src_of(n)}: offset within [0, extent({a.name}))",
                         z3.And(i >= 0, i < a.shape[0]), n)
-            return self.elem_val(a, self.select(a, [i]))
+            return self.elem_val(a, self.select(a, [i]), [i])
         if base.k == "row":
             a, idx, _ = base.t
             j = self.to_int(self.ev(items[0]))
             self.check_index_dim(a, len(idx), j, n)
-            return self.elem_val(a, self.select(a, idx + [j]))
+            return self.elem_val(a, self.select(a, idx + [j]), idx + [j])
         if base.k == "tuple" and len(items) == 1:
             iv = self.ev(items[0])
             if iv.extra is not None:
@@ -811,7 +864,7 @@ class Exec:
             v = self.ev(n.args[0])
             if v.k == "float":
                 t = z3.If(v.t >= 0, v.t, -v.t) if self.fm.mode == "R" else self.fm.fn["abs"](v.t)
-                return Val("float", t, v.ty)
+                return Val("float", t, v.ty, nan=v.nan)
             t = self.to_int(v)
             return Val("int", z3.If(t >= 0, t, -t), v.ty)
         if fn in ("sqrt", "np.sqrt", "math.sqrt"):
@@ -1121,7 +1174,7 @@ class Exec:
         if ty.kind == "float":
             if v.k == "obj":
                 return self.havoc_scalar(what or "objfloat", ty)
-            return Val("float", self.to_float(v), ty, v.extra)
+            return Val("float", self.to_float(v), ty, v.extra, nan=v.nan if v.k == "float" else None)
         if ty.kind == "arr":
             if v.k == "arr":
                 a = v.t
@@ -1176,6 +1229,33 @@ class Exec:
             m = getattr(self, "st_" + type(s).__name__, None)
             if m is None:
                 raise Undecidable(f"statement {type(s).__name__}")
+            if self.c.asserts and isinstance(s, (ast.Assign, ast.AugAssign)):
+                tg = s.targets[0] if isinstance(s, ast.Assign) else s.target
+                if isinstance(tg, ast.Subscript) and isinstance(tg.value, ast.Name) and \
+                        any(k.split("#")[0] == "store:" + tg.value.id for k in self.c.asserts):
+                    key = "store:" + tg.value.id
+                    cnt = self.labels.get(("stmtcnt", key), 0) + 1
+                    self.labels[("stmtcnt", key)] = cnt
+                    kk = key if cnt == 1 and key in self.c.asserts else f"{key}#{cnt}"
+                    saved_b = dict(self.bound_vars)
+                    sm = self.spec_mode
+                    self.spec_mode = True
+                    for qi, it in enumerate(self.index_list(tg.slice)):
+                        self.bound_vars[f"idx{qi}"] = self.ev(it)
+                    self.spec_mode = sm
+                    for a in self.c.asserts.get(kk, []):
+                        f = self.spec(a)
+                        self.oblige("assert", f"before store {kk} `{src_of(s)}`: {a}", f, s)
+                    self.bound_vars = saved_b
+            if self.c.asserts and not isinstance(s, (ast.For, ast.While, ast.If)):
+                key = src_of(s)
+                if any(k.split("#")[0] == key for k in self.c.asserts):
+                    cnt = self.labels.get(("stmtcnt", key), 0) + 1
+                    self.labels[("stmtcnt", key)] = cnt
+                    kk = key if cnt == 1 and key in self.c.asserts else f"{key}#{cnt}"
+                    for a in self.c.asserts.get(kk, []):
+                        f = self.spec(a)
+                        self.oblige("assert", f"before `{kk}`: {a}", f, s)
             m(s)
 
     def st_Pass(self, s):
@@ -1218,7 +1298,7 @@ class Exec:
                 d = len(idx)
                 # unpacking a row of length != len(targets) raises ValueError (allowed rejection)
                 self.assume(a.shape[d] == len(tgt.elts))
-                val = Val("tuple", [self.elem_val(a, self.select(a, idx + [z3.IntVal(q)])) for q in range(len(tgt.elts))])
+                val = Val("tuple", [self.elem_val(a, self.select(a, idx + [z3.IntVal(q)]), idx + [z3.IntVal(q)]) for q in range(len(tgt.elts))])
             if val.k != "tuple" or len(val.t) != len(tgt.elts):
                 raise Undecidable("tuple assignment arity")
             for t, v in zip(tgt.elts, val.t):
@@ -1251,6 +1331,8 @@ class Exec:
                 idx = [self.to_int(self.ev(i)) for i in items]
                 self.check_index(a, idx, tgt, src_of(tgt))
                 self.store(a, idx, self.elem_store(a, val, tgt))
+                if self.c.nan_aware and a.elem.kind == "float":
+                    self.nan_store(a, idx, self.nanof(val))
                 return
             if base.k == "ptr":
                 a, off = base.t
@@ -1412,6 +1494,8 @@ class Exec:
             if cur.k == "arr":
                 a = cur.t
                 self.heap[a.id] = z3.Const(f"{a.name}__h{next(self.n)}", a.sort)
+                if (a.id, "nan") in self.heap:
+                    self.heap[(a.id, "nan")] = z3.Const(f"{a.name}__nanh{next(self.n)}", self.heap[(a.id, "nan")].sort())
             elif cur.k == "ptr":
                 a = cur.t[0]
                 self.heap[a.id] = z3.Const(f"{a.name}__h{next(self.n)}", a.sort)
@@ -1484,15 +1568,15 @@ class Exec:
             advance()
             self.check_invs(invs, "inv-pres", key)
         # 3. exit: arbitrary state satisfying the invariant and the negated condition
+        #    The head symbols now denote the state at the LAST evaluation of the loop head: either the
+        #    condition is false there, or it is true and the body reaches a `break`.
         self.restore(head_snap)
-        self.guard = z3.And(g0, z3.Not(cond))
+        self.guard = g0
         if exit_fact is not None:
-            self.assume(exit_fact())
-        gx = self.guard
+            self.assume(z3.Implies(z3.Not(cond), exit_fact()))
+        self.assume(z3.Or(z3.Not(cond), *[g for g, _ in breaks]))
         for g, s in breaks:
             self.merge(g, s, self.snapshot())
-            gx = z3.Or(gx, g)
-        self.guard = z3.simplify(gx)
         self.cur_loop = cur_key_saved
 
     def st_While(self, s):
@@ -1519,7 +1603,7 @@ class Exec:
             def setup():
                 qi = self.vars[q].t
                 self.assume(z3.And(qi >= 0))
-                self.vars[tname] = self.coerce(self.elem_val(a, self.select(a, [qi])), self.types.get(tname), s, tname)
+                self.vars[tname] = self.coerce(self.elem_val(a, self.select(a, [qi]), [qi]), self.types.get(tname), s, tname)
             extra_loopvars = (q, tname)
         elif it.k == "range":
             args = [self.to_int(v) for v in it.t]
@@ -1689,6 +1773,9 @@ class Exec:
             ta = self.heap[a.t.id] if a.k == "arr" else None
             tb = self.heap[b.t.id] if b.k == "arr" else None
             return self.mk_bool(ta == tb)
+        if fn == "isnan":
+            v = self.ev(n.args[0])
+            return self.mk_bool(self.nanof(v))
         if fn == "real":
             return Val("float", self.to_float(self.ev(n.args[0])), PYFLOAT)
         if fn in self.c.ghost:
@@ -1736,6 +1823,8 @@ class Exec:
                 for s in a.shape:
                     self.facts.append(s >= 0)
                 self.vars[pn] = Val("arr", a, pt)
+                if self.c.nan_aware and pt.elem is not None and pt.elem.kind == "float":
+                    self.nan_heap(a)
             elif pt.kind == "ptr":
                 a = ArrObj(pn, pt.elem, 1, self.fm)
                 a.contig = True
@@ -1783,6 +1872,12 @@ class Exec:
                 f = self.spec(e)
                 self.oblige("post", f"ensures {e}", f)
             self.vars, self.heap, self.guard = sv, sh, sg
+        for k in self.c.asserts:
+            if k.startswith("store:"):
+                base, _, num = k.partition("#")
+                want = int(num) if num else 1
+                if self.labels.get(("stmtcnt", base), 0) < want:
+                    pass    # fewer stores than asserted: the invariants / postcondition decide
         ax = self.fm.axioms()
         if ax:
             for o in self.obls:
@@ -1802,7 +1897,7 @@ _orig_ev_call = Exec.ev_Call
 
 def _ev_call_with_spec(self, n):
     fn = self.fname(n.func)
-    if fn is not None and (self.spec_mode or fn in ("shape", "extent", "old", "implies", "iff", "ite", "contiguous", "real")):
+    if fn is not None and (self.spec_mode or fn in ("shape", "extent", "old", "implies", "iff", "ite", "contiguous", "real", "isnan")):
         r = self.spec_call(fn, n)
         if r is not None:
             return r
@@ -1887,7 +1982,8 @@ def _expand(e, dom, cache):
         parts = []
         for tup in itertools.product(dom, repeat=nv):
             # de Bruijn: var index 0 is the LAST bound variable
-            subs = [z3.IntVal(v) for v in reversed(tup)]
+            # removing this binder shifts the de Bruijn indices of enclosing binders down by nv
+            subs = [z3.IntVal(v) for v in reversed(tup)] + [z3.Var(k, I) for k in range(8)]
             parts.append(z3.substitute_vars(body, *subs))
         r = z3.And(*parts) if e.is_forall() else z3.Or(*parts)
         cache[key] = r
